@@ -13,7 +13,7 @@ for d in sorted(glob.glob(os.path.join(ROOT, 'seeded', '*')), key=lambda p: (p.s
     ok = m.get('confirmed_ok')
     ts = 'passes' if ok else ('not run' if ok is None else 'FAILS')
     summ = re.sub(r'\s+', ' ', m.get('summary', ''))[:150].replace('|', '/')
-    rows.append('| %s | %s | %s | %s | `%s` |' % (name, summ, ts, ', '.join('%s quick' % c for c in caught) or ('MISSED by ' + ', '.join(missed) if missed else 'not run'), first[:70]))
+    rows.append('| %s | %s | %s | %s | `%s` |' % (name, summ, ts, (', '.join('%s quick' % c for c in caught) + (' (not by %s)' % ', '.join(missed) if missed and caught else '')) or ('MISSED by ' + ', '.join(missed) if missed else 'not run'), first[:70]))
 p = os.path.join(ROOT, 'DESIGN.md')
 s = open(p).read()
 block = '<!-- SEEDED-TABLE -->\n' + '\n'.join(rows) + '\n<!-- /SEEDED-TABLE -->'
